@@ -23,5 +23,6 @@ func New() hctx.Map {
 
 // Debug by verbosely printing out using 'pre' tags.
 func Debug(v interface{}) template.HTML {
-	return template.HTML(fmt.Sprintf("<pre>%s</pre>", Inspect(v)))
+	// only the pre tags are markup: the printed value is data
+	return template.HTML(fmt.Sprintf("<pre>%s</pre>", template.HTMLEscapeString(Inspect(v))))
 }
